@@ -1,7 +1,7 @@
 (* C05 - Equality, hashing, reduction and construction agree on "same distribution".
    Only property theorems here; proofs are in Proofs/EqualityP.v and Base/Hist.v. *)
 From Coq Require Import ZArith List Permutation.
-From Dyce Require Import Base.Sums Base.Order Base.Hist Base.QcOrd Model.Pool Model.Equality Proofs.EqualityP.
+From Dyce Require Import Base.Sums Base.Order Base.Hist Base.QcOrd Model.Pool Model.Equality Proofs.EqualityP Proofs.InitP.
 Import ListNotations.
 Open Scope Z_scope.
 
@@ -66,6 +66,13 @@ Theorem C05_negative_count_rejected : forall {T} (O : ord T) l,
   (exists e, mkH O l = Err e) <-> exists oc, In oc l /\ snd oc < 0.
 Proof. exact @mkH_err. Qed.
 Print Assumptions C05_negative_count_rejected.
+
+(* the constructor's actual algorithm - sort the (outcome, count) items as tuples, then accumulate into a
+   dict that appends an outcome the first time it is seen - builds exactly the sorted-insert histogram
+   the other theorems speak about *)
+Theorem C05_constructor_algorithm : forall {T} (O : ord T) (l : list (T * Z)), init_items O l = mk O l.
+Proof. exact @init_items_is_mk. Qed.
+Print Assumptions C05_constructor_algorithm.
 
 Example C05_nonvacuous :
   heq VO [(qc 1 1, 2); (qc 2 1, 4); (qc 3 1, 0)] [(qc 1 1, 1); (qc 2 1, 2)] = true /\
